@@ -165,7 +165,14 @@ func main() {
 			recs = append(recs, outs[i].Records...)
 		}
 		sort.SliceStable(recs, func(i, j int) bool { return recs[i].ID < recs[j].ID })
-		if len(recs) != len(cases) && res.Broken == "" {
+		nSeq := 0
+		for _, r := range recs {
+			if r.Fam == "sequence" {
+				nSeq++
+			}
+		}
+		res.Count("reopen_sequences", nSeq)
+		if len(recs)-nSeq != len(cases) && res.Broken == "" {
 			res.Broken = fmt.Sprintf("children returned %d records for %d cases", len(recs), len(cases))
 		}
 	}
